@@ -173,4 +173,11 @@ BoundsOK ==
             ProofPosSet(n, {PosOfIn(nds, s) : s \in S}) \subseteq lo
       /\ \A p \in up : IsRoot(n, p) \/ NodeAtIn(nds, p) # Empty
 
+
+\* state constraint for the wide undo configurations: few live leaves in many
+\* slots; a denser state is explored only far enough to undo the block that
+\* led to it
+SparseUndo == \/ Cardinality(live) <= 3
+              \/ (stack # <<>> /\ Cardinality(Head(stack).live) <= 3 /\ marks.und = 0)
+
 =============================================================================
